@@ -106,7 +106,12 @@ fn check(shape: &Shape, obs: &mut Obs) {
             for y in y0..y1 {
                 for x in x0..x1 {
                     let q = Point::new(x, y);
-                    if p.contains(q) {
+                    // through the trait entry point (for Rectangle the inherent method is a different function: both must agree)
+                    let c = ContainsPoint::contains(&p, q);
+                    if c != p.contains(q) {
+                        obs.fail("trait-and-inherent-contains-agree", format!("ContainsPoint::contains({:?}) = {c}, .contains() = {}", (x, y), !c));
+                    }
+                    if c {
                         exp.push((x, y));
                         if !bb.contains(q) {
                             outside_true.push((x, y));
